@@ -251,3 +251,25 @@ Example ex_walk_unknown :
 Proof. vm_compute. split; reflexivity. Qed.
 Example ex_walk_nan : p2j_walk 3 exO exS [77] (encode_msg [(4, VList true [VScalar K_FLOAT 2143289344])]) = None.
 Proof. vm_compute. reflexivity. Qed.
+
+(* ================================================================== (G) proto/binary Skip from the Go source *)
+(* Skip / SkipFixed32Type / SkipFixed64Type / SkipBytesType are translated from proto/binary/binary_skip.go on every build
+   (gen/Gen_protoskip.v).  For the four wire types of proto3 Skip succeeds exactly when the model's wire decoder wdec_val reads one value
+   of that type from the cursor, and then stands where wdec_val's rest begins; any other wire type: nil and nothing consumed. *)
+From DG Require GoSem Gen_protoskip Check20h GenProtoskipProofs.
+Theorem C08_Skip_from_source :
+  (forall buf rd wt u, bytes_ok buf -> GenProtoskipProofs.in_buf buf rd -> wt = 0 \/ wt = 1 \/ wt = 2 \/ wt = 5 ->
+     Check20h.obs_of (Gen_protoskip.BinaryProtocol_Skip buf rd wt u) = Check20h.skip_obs buf rd wt) /\
+  (forall buf rd wt u, wt <> 0 -> wt <> 1 -> wt <> 2 -> wt <> 5 -> Gen_protoskip.BinaryProtocol_Skip buf rd wt u = (0, buf, rd)).
+Proof. split; [exact GenProtoskipProofs.Skip_is_wdec_val | exact GenProtoskipProofs.Skip_other]. Qed.
+Print Assumptions C08_Skip_from_source.
+
+(* ================================================================== (G) the finite test from the Go source *)
+(* conv/p2j checkFinite (gen/Gen_p2jfinite.v, regenerated from the Go text on every build; math.IsNaN / math.IsInf are read as tests on
+   the IEEE bit pattern) rejects exactly the doubles the model has no JSON image for: those that are not Num.f64_is_finite *)
+From DG Require Num Gen_p2jfinite GenFiniteProofs.
+Theorem C08_checkFinite_from_source :
+  forall b e, 0 <= b ->
+  Gen_p2jfinite.checkFinite b e = if Num.f64_is_finite b then (0, []) else (e, [(Gen_p2jfinite.Eff_wrapError, [6])]).
+Proof. exact GenFiniteProofs.checkFinite_is_finite. Qed.
+Print Assumptions C08_checkFinite_from_source.
